@@ -189,7 +189,7 @@ class NativeContracts:
             return bool(eval(code, env))
         except Skip:
             raise
-        except (IndexError, KeyError, TypeError, AttributeError, ZeroDivisionError) as e:
+        except (IndexError, KeyError, TypeError, AttributeError, ZeroDivisionError, NameError) as e:
             # specification terms are total in the logic; natively an out-of-range read means
             # "this clause says nothing checkable here"
             raise Skip("%s: %s" % (type(e).__name__, e))
